@@ -355,6 +355,79 @@ theorem locateModel_shift (P : Params) (content : Find.Image) (h w : Nat)
 
 end pre
 
+/-! ## non-vacuity of the compositions -/
+
+section examples
+open Bandpass
+
+/-- `locate(…, preprocess=False)`: separation 2, percentile 50, margin 1, radius 1, two iterations -/
+def exP : Params where
+  preprocess := false
+  lshort := []
+  kernels := []
+  llong := []
+  thr := none
+  sep := [2, 2]
+  pct := 50
+  margin := [1, 1]
+  radius := [1, 1]
+  shiftThr := 3/5
+  maxIter := 2
+
+/-- C06's 3×3 content at `(2,3)` of an 8×9 canvas: two features; the model really runs -/
+example : (locateModel exP [8, 9] (embed [8, 9] [2, 3] exContent).data).map (List.map (·.centre))
+    = some [[3, 4], [4, 5]] := by decide +kernel
+
+/-- every hypothesis of `locateNoPre_shift` holds for that content at `(2,3)` and at `(3,2)`
+(`embed_isEmbed` supplies `IsEmbed`; the paddings are decidable) -/
+example : locateModel exP [8, 9] (embed [8, 9] [3, 2] exContent).data =
+    (locateModel exP [8, 9] (embed [8, 9] [2, 3] exContent).data).map
+      (List.map (moveMeasure 2 (disp 2 [2, 3] [3, 2]))) :=
+  locateNoPre_shift exP rfl exContent [8, 9] [8, 9] [2, 3] [3, 2] _ _
+    (embed_isEmbed [8, 9] [2, 3] exContent rfl ⟨by omega, by omega, trivial⟩)
+    (embed_isEmbed [8, 9] [3, 2] exContent rfl ⟨by omega, by omega, trivial⟩)
+    (by simp [embed, allIdx_length]) (by simp [embed, allIdx_length]) (by decide)
+    (by decide) (by decide) (by decide) (by decide)
+
+def exK : Array Rat := #[1/4, 1/2, 1/4]
+
+/-- `locate(…, preprocess=True)`: noise size 1 with the 3-tap kernel `exK`, smoothing size 3 -/
+def exPP : Params where
+  preprocess := true
+  lshort := [1, 1]
+  kernels := [exK, exK]
+  llong := [3, 3]
+  thr := none
+  sep := [2, 2]
+  pct := 50
+  margin := [1, 1]
+  radius := [1, 1]
+  shiftThr := 3/5
+  maxIter := 1
+
+/-- a single bright pixel -/
+def exDot : Find.Image := ⟨[1, 1], #[200]⟩
+
+example : halo 1 exK 3 = 2 := by decide +kernel
+
+/-- the whole pipeline runs on it and finds the dot -/
+example : (locateModel exPP [8, 8] (embed [8, 8] [3, 3] exDot).data).map (List.map (·.centre))
+    = some [[3, 3]] := by decide +kernel
+
+/-- every hypothesis of `locateModel_shift` (`preprocess = True`, halo 2) holds for the dot at
+`(3,3)` and at `(4,3)` of an 8×8 canvas -/
+example : locateModel exPP [8, 8] (embed [8, 8] [4, 3] exDot).data =
+    (locateModel exPP [8, 8] (embed [8, 8] [3, 3] exDot).data).map
+      (List.map (moveMeasure 2 (disp 2 [3, 3] [4, 3]))) :=
+  locateModel_shift exPP exDot 1 1 rfl 8 8 8 8 3 3 4 3 _ _
+    (embed_isEmbed [8, 8] [3, 3] exDot rfl ⟨by omega, by omega, trivial⟩)
+    (embed_isEmbed [8, 8] [4, 3] exDot rfl ⟨by omega, by omega, trivial⟩)
+    (by simp [embed, allIdx_length]) (by simp [embed, allIdx_length])
+    1 1 exK exK 3 3 (fun _ => ⟨rfl, rfl, rfl⟩) (by decide) 2 2 (by decide +kernel) (by decide +kernel)
+    (by decide) (by decide) (by decide) (by decide) (by decide) (by decide)
+
+end examples
+
 /-! ## the `np.where` order of the maxima under a shift -/
 
 /-- **maxima_shift_order.**  `maxima_shift` with the ORDER: the candidate list of the second canvas
